@@ -103,6 +103,8 @@ def coq_check(pid, props_files, extract_file):
 # ----------------------------------------------------------------------------------------------
 # running driver and model
 # ----------------------------------------------------------------------------------------------
+CRASH_CAP = 40
+
 def _big_stack():
     import resource
     try: resource.setrlimit(resource.RLIMIT_STACK, (resource.RLIM_INFINITY, resource.RLIM_INFINITY))
@@ -117,10 +119,14 @@ def run_lines(exe, lines, per_batch_timeout=600, env=None):
     i = 0
     e = dict(os.environ)
     if env: e.update(env)
+    crashes = 0
     while i < len(lines):
+        if crashes >= CRASH_CAP:        # enough replays collected: do not restart the driver thousands of times
+            out.extend(["SKIPPED"] * (len(lines) - i))
+            break
         data = "\n".join(lines[i:]) + "\n"
         try:
-            r = subprocess.run([exe], input=data, stdout=subprocess.PIPE, stderr=subprocess.PIPE, text=True,
+            r = subprocess.run(exe if isinstance(exe, list) else [exe], input=data, stdout=subprocess.PIPE, stderr=subprocess.PIPE, text=True,
                                timeout=per_batch_timeout, env=e, errors="replace", preexec_fn=_big_stack)
             got = r.stdout.split("\n")
             if got and got[-1] == "": got.pop()
@@ -138,37 +144,75 @@ def run_lines(exe, lines, per_batch_timeout=600, env=None):
             out.extend(got)
             i += len(got)
             kind = "HANG" if rc == 124 else "CRASH rc=%d" % rc
-            tail = " ".join(err.strip().split("\n")[-3:])[:300] if err else ""
+            el = err.strip().split("\n") if err else []
+            key = [x.strip() for x in el if re.search(r"ERROR: AddressSanitizer|runtime error:|SUMMARY:|Invalid (read|write)|uninitialised|Mismatched|terminate called|Assertion", x)]
+            tail = (" ".join(key[:3]) if key else " ".join(el[-3:]))[:400]
             out.append("%s %s" % (kind, tail))
             i += 1
+            crashes += 1
     return out
 
 class Runner:
+    """builds and runs driver(s) + model(s).  A property may route cases to several drivers: prop.route(case) ->
+    (driver name, model name or None, stripped case); with model None the verdict is prop.judge(case, impl)."""
     def __init__(self, prop, flavour="plain"):
         self.prop = prop
         self.flavour = flavour
-        self.driver = None
-        self.model = None
+        self.bdir = None
+        self.models = {}
         self.build_err = None
     def build(self):
-        b = cxxbuild.build(self.flavour, [self.prop.DRIVER])
+        drivers = list(getattr(self.prop, "DRIVERS", [self.prop.DRIVER]))
+        models = list(getattr(self.prop, "MODELS", [self.prop.MODEL]))
+        cxx_flavour = "plain" if self.flavour == "valgrind" else self.flavour
+        b = cxxbuild.build(cxx_flavour, drivers)
         if b is None:
-            self.build_err = "C++ build of /repo (flavour %s) or driver %s failed" % (self.flavour, self.prop.DRIVER)
+            self.build_err = "C++ build of /repo (flavour %s) or of a driver in %s failed" % (cxx_flavour, drivers)
             return False
-        self.driver = os.path.join(b, "d_" + self.prop.DRIVER)
-        m = build_ml.build(self.prop.MODEL)
-        if m is None:
-            self.build_err = "OCaml build of the extracted model %s failed" % self.prop.MODEL
-            return False
-        self.model = m
+        self.bdir = b
+        for mname in models:
+            m = build_ml.build(mname)
+            if m is None:
+                self.build_err = "OCaml build of the extracted model %s failed" % mname
+                return False
+            self.models[mname] = m
         return True
+    def driver_cmd(self, name):
+        exe = os.path.join(self.bdir, "d_" + name)
+        if self.flavour == "valgrind":
+            return ["valgrind", "-q", "--error-exitcode=97", "--exit-on-first-error=yes", "--errors-for-leak-kinds=none", exe]
+        return exe
+    def run_env(self):
+        env = dict(getattr(self.prop, "DRIVER_ENV", None) or {})
+        if self.flavour == "asan":
+            env.setdefault("ASAN_OPTIONS", "detect_leaks=0:abort_on_error=0:allocator_may_return_null=1")
+            env.setdefault("UBSAN_OPTIONS", "print_stacktrace=1:halt_on_error=1")
+        return env
+    def _judge_with_model(self, m, cases, impl, timeout):
+        idx = [i for i, o in enumerate(impl) if o != "SKIPPED"]
+        verd = ["OK skipped-after-crash-cap"] * len(cases)
+        got = run_lines(self.models[m], [cases[i] + " ||| " + impl[i] for i in idx], per_batch_timeout=timeout)
+        for i, v in zip(idx, got): verd[i] = v
+        return verd
     def evaluate(self, cases, timeout=900):
         """returns list of (impl_line, verdict_line)"""
-        env = getattr(self.prop, "DRIVER_ENV", None)
-        impl = run_lines(self.driver, cases, per_batch_timeout=timeout, env=env)
-        joined = [c + " ||| " + o for c, o in zip(cases, impl)]
-        verd = run_lines(self.model, joined, per_batch_timeout=timeout)
-        return list(zip(impl, verd))
+        env = self.run_env()
+        if not hasattr(self.prop, "route"):
+            impl = run_lines(self.driver_cmd(self.prop.DRIVER), cases, per_batch_timeout=timeout, env=env)
+            return list(zip(impl, self._judge_with_model(self.prop.MODEL, cases, impl, timeout)))
+        routed = [self.prop.route(c) for c in cases]
+        out = [None] * len(cases)
+        groups = {}
+        for i, (d, m, c) in enumerate(routed): groups.setdefault((d, m), []).append(i)
+        for (d, m), idx in groups.items():
+            sub = [routed[i][2] for i in idx]
+            impl = run_lines(self.driver_cmd(d), sub, per_batch_timeout=timeout, env=env)
+            if m is None:
+                verd = [self.prop.judge(c, o) for c, o in zip(sub, impl)]
+            else:
+                verd = self._judge_with_model(m, sub, impl, timeout)
+            for i, o, v in zip(idx, impl, verd): out[i] = (o, v)
+        return out
 
 # ----------------------------------------------------------------------------------------------
 # shrinking (delta debugging over the structured case)
